@@ -7,11 +7,13 @@ root = '/verif/seeded'
 os.makedirs(root, exist_ok=True)
 kept = 0
 for line in open(res):
-    m = re.match(r'RESULT (C\d+)(-out\d*)/(m\d+) demo_clean=(\d+) demo_patched=(\d+) suite=(\d+) detected_by=(.*)$', line.strip())
+    m = re.match(r'RESULT (C\d+|FIX)(-out\d*|-own)/(m\d+) demo_clean=(\d+) demo_patched=(\d+) suite=(\d+) detected_by=(.*)$', line.strip())
     if not m: continue
     prop, suf, mk, dc, dp, su, det = m.groups()
-    if suf != suffix: continue
+    if suf != suffix or (prop == 'FIX') != (label == 'fix'): continue
     src = f'/tmp/mut/{prop}{suf}/{mk}'
+    if prop == 'FIX':
+        prop = {'m1': 'C12', 'm2': 'C10', 'm3': 'C13', 'm4': 'C15', 'm5': 'C15'}[mk]
     ok = dc == '0' and dp != '0' and su == '0'
     if not ok:
         print('NOT CONFIRMED', line.strip()); continue
@@ -30,7 +32,7 @@ for line in open(res):
     meta = {
         'id': sid,
         'breaks_property': prop,
-        'origin': f'fresh sub-agent given only the text of {prop} and a scratch worktree of /repo at its HEAD (round {label})',
+        'origin': ('revert of one of the fix: commits in /repo (the original defect)' if label == 'fix' else 'written by the framework author to validate the schedule explorer' if label == 'own' else f'fresh sub-agent given only the text of {prop} and a scratch worktree of /repo at its HEAD (round {label})'),
         'summary': title,
         'needs_to_manifest': needs[:1200] if needs else 'see notes.md',
         'demo_placement': demo_path,
